@@ -17,7 +17,12 @@
     'c' and 'r'), all equal `cosetProb dist (Planar.stabilizers R C) sample`.
 
   What is NOT a theorem: that the real float / mpf contraction equals this exact value (explored numerically by
-  harness/qv/props/c10.py), and the networks of the rotated-planar / colour / RMPS decoders (not modelled).
+  harness/qv/props/c10.py).  The networks of the other decoders are modelled and proved in their own files:
+  Props/C10/PlanarRmpsNetwork.lean (`planarRmps_tn_exact_value`, `planarRmps_optimized_value`),
+  Props/C10/RotatedPlanarNetwork.lean (`rotated_planar_tn_exact_value`), Props/C10/RotatedPlanarRmpsNetwork.lean
+  (`rotated_planar_rmps_tn_exact_value`), Props/C10/Color666Network.lean (`color666_tn_exact_value`); the decoders'
+  shared-bra / shared-ket procedures in Props/C10/PlanarShared.lean, RotatedPlanarShared.lean,
+  RotatedPlanarRmpsShared.lean, Color666Values.lean.
 -/
 import QecVerif.Lemmas.PlanarTn
 namespace Qec.C10
